@@ -17,8 +17,12 @@
 package tso
 
 import (
+	"context"
+	"fmt"
 	"time"
 
+	"github.com/tikv/pd/server/election"
+	"go.etcd.io/etcd/clientv3"
 	"google.golang.org/grpc"
 )
 
@@ -54,4 +58,83 @@ func VerifTSO(a Allocator) (physical time.Time, logical int64, lastSaved time.Ti
 // VerifSetGRPCConn pre-seeds the connection cache used for PD-to-PD calls.
 func (am *AllocatorManager) VerifSetGRPCConn(addr string, conn *grpc.ClientConn) {
 	am.setGRPCConn(conn, addr)
+}
+
+// VerifSetUpLocalAllocator does what SetUpAllocator does for a Local TSO
+// Allocator without starting the (never ending) allocatorLeaderLoop goroutine.
+func (am *AllocatorManager) VerifSetUpLocalAllocator(parentCtx context.Context, dcLocation string) {
+	am.mu.Lock()
+	defer am.mu.Unlock()
+	if _, exist := am.mu.allocatorGroups[dcLocation]; exist {
+		return
+	}
+	leadership := election.NewLeadership(am.member.Client(), am.getAllocatorPath(dcLocation),
+		fmt.Sprintf("%s local allocator leader election", dcLocation))
+	allocator := NewLocalTSOAllocator(am, leadership, dcLocation)
+	ctx, cancel := context.WithCancel(parentCtx)
+	am.mu.allocatorGroups[dcLocation] = &allocatorGroup{
+		dcLocation: dcLocation,
+		ctx:        ctx,
+		cancel:     cancel,
+		leadership: leadership,
+		allocator:  allocator,
+	}
+}
+
+// VerifBecomeAllocatorLeader performs one round of allocatorLeaderLoop for a
+// dc-location whose allocator has no leader: ask the PD leader for the
+// dc-location info, then the steps of campaignAllocatorLeader before its ticker
+// loop (without the keep-alive goroutine).
+func (am *AllocatorManager) VerifBecomeAllocatorLeader(ctx context.Context, dcLocation string) error {
+	ag, ok := am.getAllocatorGroup(dcLocation)
+	if !ok {
+		return fmt.Errorf("%s allocator not set up", dcLocation)
+	}
+	allocator := ag.allocator.(*LocalTSOAllocator)
+	ok, dcLocationInfo, err := am.getDCLocationInfoFromLeader(ctx, dcLocation)
+	if err != nil {
+		return err
+	}
+	if !ok || dcLocationInfo.Suffix <= 0 || dcLocationInfo.MaxTs == nil {
+		return fmt.Errorf("pd leader is not aware of dc-location %s", dcLocation)
+	}
+	cmps := []clientv3.Cmp{clientv3.Compare(clientv3.CreateRevision(am.nextLeaderKey(dcLocation)), "=", 0)}
+	if err := allocator.CampaignAllocatorLeader(defaultAllocatorLeaderLease, cmps...); err != nil {
+		return err
+	}
+	if err := allocator.Initialize(int(dcLocationInfo.Suffix)); err != nil {
+		am.ResetAllocatorGroup(dcLocation)
+		return err
+	}
+	if dcLocationInfo.GetMaxTs().GetPhysical() != 0 {
+		if err := allocator.WriteTSO(dcLocationInfo.GetMaxTs()); err != nil {
+			am.ResetAllocatorGroup(dcLocation)
+			return err
+		}
+	}
+	am.compareAndSetMaxSuffix(dcLocationInfo.Suffix)
+	allocator.EnableAllocatorLeader()
+	return nil
+}
+
+// VerifObserveAllocatorLeader does what a member that is not the allocator
+// leader of dcLocation learns through CheckAllocatorLeader + WatchAllocatorLeader:
+// it reads the allocator leader record and caches it (or clears the cache).
+func (am *AllocatorManager) VerifObserveAllocatorLeader(dcLocation string) {
+	ag, ok := am.getAllocatorGroup(dcLocation)
+	if !ok {
+		return
+	}
+	allocator := ag.allocator.(*LocalTSOAllocator)
+	leader, _, err := election.GetLeader(allocator.leadership.GetClient(), allocator.rootPath)
+	if err != nil || leader == nil {
+		if !allocator.isSameAllocatorLeader(allocator.GetAllocatorLeader()) {
+			allocator.unsetAllocatorLeader()
+		}
+		return
+	}
+	if allocator.isSameAllocatorLeader(leader) {
+		return
+	}
+	allocator.setAllocatorLeader(leader)
 }
